@@ -942,6 +942,45 @@ fn do_tree_op(st: &mut TreeSt, toks: &[&str], c: &mut Ctx) -> String {
             if drained != n || it.nth(0).is_some() {
                 c.viol("C02", "nth(0) on a drained iterator is not None");
             }
+            // the same adaptors called on the iterators themselves (an override of count / last / fold / min / max /
+            // size_hint is only reached without a wrapping adaptor); the watchdog bounds a walk that never ends
+            if t.items().count() != n || t.items_fast().count() != n || t.keys().count() != n || t.values().count() != n || t.range(..).count() != n {
+                c.viol("C02", "count() called directly on an iterator differs from the number of entries");
+            }
+            if t.items().last().map(|(k, v)| s_kv(k, v)) != want.last().cloned()
+                || t.items_fast().last().map(|(k, v)| s_kv(k, v)) != want.last().cloned()
+                || t.range(..).last().map(|(k, v)| s_kv(k, v)) != want.last().cloned()
+                || t.keys().last().map(s_key) != wk.last().cloned()
+            {
+                c.viol("C02", "last() called directly on an iterator differs from the maximum entry");
+            }
+            for k in [n, n.saturating_sub(1), n + 1] {
+                if t.items().skip(k).last().map(|(k, v)| s_kv(k, v)) != want.iter().skip(k).last().cloned() {
+                    c.viol("C02", &format!("items().skip({}).last() differs", k));
+                }
+                let mut it = t.items();
+                let _ = it.by_ref().take(k).count();
+                if it.last().map(|(k, v)| s_kv(k, v)) != want.iter().skip(k).last().cloned() {
+                    c.viol("C02", &format!("last() on an iterator advanced by {} entries differs", k));
+                }
+                let mut it = t.items();
+                let _ = it.by_ref().take(k).count();
+                if it.count() != n.saturating_sub(k) {
+                    c.viol("C02", &format!("count() on an iterator advanced by {} entries differs", k));
+                }
+            }
+            let folded: Vec<String> = t.items().fold(Vec::new(), |mut a, (k, v)| { a.push(s_kv(k, v)); a });
+            if folded != want {
+                c.viol("C02", "items().fold() differs");
+            }
+            if t.keys().min().map(s_key) != wk.first().cloned() || t.keys().max().map(s_key) != wk.last().cloned() {
+                c.viol("C02", "keys().min() / max() differ");
+            }
+            for (name, (lo, hi)) in [("items", t.items().size_hint()), ("items_fast", t.items_fast().size_hint()), ("keys", t.keys().size_hint()), ("range", t.range(..).size_hint())] {
+                if lo > n || hi.map_or(false, |h| h < n) {
+                    c.viol("C02", &format!("{}().size_hint() = ({}, {:?}) excludes the real length {}", name, lo, hi, n));
+                }
+            }
             format!(
                 "items=[{}] fast=[{}] keys=[{}] values=[{}]",
                 items.join(" "),
